@@ -42,6 +42,16 @@ Theorem C18_once_fires_first_time : forall A (same : A -> A -> bool) pre a betwe
   In a (spec_fire A same (pre ++ Once a :: between)).
 Proof. exact once_fires_first_time. Qed.
 
+(** ATOMICITY HYPOTHESIS of every statement about concurrency below (and of the machine of
+    HandlerStoreHeap.v): each registry method - on, once, off, offAll, offSubEvent(s), getAll -
+    is ONE atomic step of the model, i.e. an execution of several goroutines is an [interleaving]
+    of their call lists.  In the code this is the mutex held over the whole method body.  It is not
+    provable here; it is what the `linearizable` suite of the check ties to the working tree:
+    concurrent histories (a long Off with other goroutines' On/Once/Off/OffAll/occurrences falling
+    inside it, invocation and response stamped) must admit an order that respects real time and
+    under which this atomic model returns what every occurrence observed; the order found is
+    verified in the kernel ([lin_order_ok] + [*_agree]). *)
+
 (** Once at most once, for any number of goroutines and every interleaving of their (atomic)
     registry calls: handlers of a class [P] that are only ever registered with Once are run, over
     all occurrences together, at most as many times as they were registered.  With [P] = "is this
